@@ -11,6 +11,7 @@ package main
 import (
 	"fmt"
 	"math"
+	"strconv"
 	"strings"
 
 	"github.com/shopspring/decimal"
@@ -423,8 +424,101 @@ func genC19(c *Ctx) {
 	if c.thorough() {
 		maxKeys = 5
 	}
-	c.Rule = fmt.Sprintf("exhaustive, two blocks. (a) every value kind (null; nil pointers; \"\" and non-empty non-numeral strings, plain and named; 0 in ten carriers incl. -0.0, decimals 0.00 and 0e5, pointer to 0; non-zero numbers; false/true plain and named; empty and non-empty slices, typed slices and Go arrays, incl. arrays holding only a zero / null / \"\" / []; empty and non-empty maps with string, named and interface keys, maps holding only a zero / null / \"\", pointers to maps; structs without fields, zero, non-zero, partly zero, behind a pointer) x the six predicates x six placements (root, map key, `?`-marked map key, struct field, `?`-marked struct field, nested key), plus an absent key with and without `?`; expected truth values from the statement's table; IsEmpty/IsNotEmpty of null and the Is*Empty family on a struct whose fields are all zero are out of domain (no expectation). (b) every path of 1..%d distinct keys x every subset of keys marked `?` x every chain document (all keys exist and end in one of 10 leaves: 7, 0, \"\", \"x\", false, true, [], [1], {}, {z:1}; or the first key that does not lead on is null / absent, at every position; every object has a sibling key) x both renderings (maps, Go structs) x {no function, each of the six predicates}; expected results from c19SpecPath on the logical document; out of domain: paths ending on an absent `?` key, IsEmpty/IsNotEmpty of null, a marked key stepped into a null that the previous key did not guard, a key stepped into a scalar. distinct = distinct (query skeleton, data shape to depth 2, outcome class); non-trivial = outcome class is not the most common one", maxKeys)
+	c.Rule = fmt.Sprintf("exhaustive, two blocks, and two named blocks: a `?`-marked / unmarked key stepped into scalars, lists of plain values, lists that begin with a null, empty lists and lists of objects that lack it (14 holders x map / struct / pointer carriers x 15 queries incl. inside a filter), and filters with null tests over lists that contain null elements (the two halves of a null test split the list). (a) every value kind (null; nil pointers; \"\" and non-empty non-numeral strings, plain and named; 0 in ten carriers incl. -0.0, decimals 0.00 and 0e5, pointer to 0; non-zero numbers; false/true plain and named; empty and non-empty slices, typed slices and Go arrays, incl. arrays holding only a zero / null / \"\" / []; empty and non-empty maps with string, named and interface keys, maps holding only a zero / null / \"\", pointers to maps; structs without fields, zero, non-zero, partly zero, behind a pointer) x the six predicates x six placements (root, map key, `?`-marked map key, struct field, `?`-marked struct field, nested key), plus an absent key with and without `?`; expected truth values from the statement's table; IsEmpty/IsNotEmpty of null and the Is*Empty family on a struct whose fields are all zero are out of domain (no expectation). (b) every path of 1..%d distinct keys x every subset of keys marked `?` x every chain document (all keys exist and end in one of 10 leaves: 7, 0, \"\", \"x\", false, true, [], [1], {}, {z:1}; or the first key that does not lead on is null / absent, at every position; every object has a sibling key) x both renderings (maps, Go structs) x {no function, each of the six predicates}; expected results from c19SpecPath on the logical document; out of domain: paths ending on an absent `?` key, IsEmpty/IsNotEmpty of null, a marked key stepped into a null that the previous key did not guard, a key stepped into a scalar. distinct = distinct (query skeleton, data shape to depth 2, outcome class); non-trivial = outcome class is not the most common one", maxKeys)
 	c19GenKinds(c)
 	c19GenPaths(c, maxKeys)
+	c19MissingElsewhere(c)
+	c19NullElements(c)
 	c.Exhaustive = true
+}
+
+// c19MissingElsewhere: a key is also missing when the value it is stepped into is not an object at all - a scalar, a list of
+// plain values, a list that begins with a null, an empty list, a list of objects that lack it. Marked `?` it hands null to
+// what follows; unmarked it fails with ErrKeyNotFound even when later keys are marked.
+func c19MissingElsewhere(c *Ctx) {
+	holders := []struct {
+		name string
+		tv   *TV
+	}{
+		{"string", tvStr("abc")}, {"number", tvF64(5)}, {"bool", tvBool(true)}, {"list-of-strings", tvSlice(1, tvStr("a"), tvStr("b"))}, {"list-of-numbers", tvSlice(1, tvF64(1), tvF64(2))},
+		{"list-of-bools", tvSlice(1, tvBool(true))}, {"list-starting-with-null", tvSlice(1, tvNil(), tvMap("str", [][2]any{{hx("k"), tvF64(1)}}))}, {"empty-list", tvSlice(1)},
+		{"list-of-objects-without-the-key", tvSlice(1, tvMap("str", [][2]any{{hx("j"), tvF64(1)}}))}, {"typed-string-slice", tvSlice(0, tvStr("a"), tvStr("b"))},
+		{"typed-number-slice", tvSlice(0, tvF64(1.5))}, {"go-array", tvArray(1, tvStr("a"))}, {"list-of-lists", tvSlice(1, tvSlice(1, tvF64(1)))}, {"pointer-to-string", tvPtr(tvStr("abc"))},
+	}
+	T, F := "b:1", "b:0"
+	for _, h := range holders {
+		for ci, wrap := range []func(v *TV) *TV{
+			func(v *TV) *TV {
+				return tvMap("str", [][2]any{{hx("v"), v}, {hx("rows"), tvSlice(1, tvMap("str", [][2]any{{hx("v"), v}, {hx("id"), tvF64(1)}}), tvMap("str", [][2]any{{hx("v"), v}, {hx("id"), tvF64(2)}}))}})
+			},
+			func(v *TV) *TV {
+				return tvStruct([][3]any{{"V", 1, v}, {"Rows", 1, tvSlice(1, tvStruct([][3]any{{"V", 1, v}, {"Id", 1, tvF64(1)}}), tvStruct([][3]any{{"V", 1, v}, {"Id", 1, tvF64(2)}}))}})
+			},
+			func(v *TV) *TV {
+				return tvPtr(tvMap("str", [][2]any{{hx("v"), v}, {hx("rows"), tvSlice(1, tvMap("str", [][2]any{{hx("v"), v}, {hx("id"), tvF64(1)}}), tvMap("str", [][2]any{{hx("v"), v}, {hx("id"), tvF64(2)}}))}}))
+			},
+		} {
+			d := wrap(h.tv)
+			cls := "missing-key-elsewhere/" + h.name + "/" + []string{"map", "struct", "pointer-to-map"}[ci]
+			for _, qx := range [][2]string{
+				{"$.v.k?.IsNull()", T}, {"$.v.k?.IsNotNull()", F}, {"$.v.k?.IsNullOrEmpty()", T}, {"$.v.k?.IsNotNullOrEmpty()", F}, {"$.v.k?.j?.IsNull()", T}, {"$.v.k?.j?.l?.IsNotNull()", F},
+				{"$.v.k", "KNF"}, {"$.v.k.IsNull()", "KNF"}, {"$.v.k.j?.IsNull()", "KNF"}, {"$.v.k.j?.l?.IsNull()", "KNF"}, {"{$.v.k?.IsNull()}", T}, {"{OR,$.v.k?.IsNotNull()}", F},
+				{"$.rows[@.v.k?.IsNull()].id", "[n:1,n:2]"}, {"$.rows[@.v.k?.IsNotNull()].id", "KNF"}, {"$.rows[@.v.k?.j?.IsNull()].id", "[n:1,n:2]"},
+			} {
+				c.Do(Case{Q: qx[0], D: d, XK: "logical", X: qx[1], Cls: cls, InDomain: true})
+			}
+		}
+	}
+}
+
+// c19NullElements: a filter asks its predicates about every element of the list, null elements included: the null tests
+// split the list between them, and `?` works on a null element as it does on a null value
+func c19NullElements(c *Ctx) {
+	obj := func(id float64, k *TV) *TV {
+		kv := [][2]any{{hx("id"), tvF64(id)}}
+		if k != nil {
+			kv = append(kv, [2]any{hx("k"), k})
+		}
+		return tvMap("str", kv)
+	}
+	lists := []struct {
+		name string
+		tv   *TV
+	}{
+		{"any-list", tvSlice(1, obj(1, tvF64(7)), tvNil(), obj(3, tvNil()), obj(4, nil), tvNil())},
+		{"list-starting-with-null", tvSlice(1, tvNil(), obj(2, tvF64(7)), obj(3, tvNil()))},
+		{"pointer-list", tvSlice(0, tvPtr(tvStruct([][3]any{{"Id", 1, tvF64(1)}, {"K", 1, tvF64(7)}})), tvNilPtr(tvStruct([][3]any{{"Id", 1, tvF64(0)}, {"K", 1, tvF64(0)}})))},
+	}
+	for _, l := range lists {
+		d := tvMap("str", [][2]any{{hx("xs"), l.tv}, {hx("all"), tvBool(true)}})
+		cls := "null-elements-under-filters/" + l.name
+		for _, q := range []string{"$.xs[@.IsNull()]", "$.xs[@.IsNotNull()]", "$.xs[@.IsNullOrEmpty()]", "$.xs[@.IsNotNullOrEmpty()]", "$.xs[@.k?.IsNull()]", "$.xs[@.k?.IsNotNull()]", "$.xs[{$.all}]",
+			"$.xs[@.IsNull()].Count()", "$.xs[@.IsNotNull()].Count()", "$.xs[OR,@.IsNull(),@.IsNotNull()].Count()", "$.xs[@.IsNotNull()].id", "$.xs[@.k?.IsNotNull()].id", "$.xs[{$.all}].Count()", "$.xs.Count()"} {
+			c.Do(Case{Q: q, D: d, Cls: cls, InDomain: true})
+		}
+		// the two halves of a null test make up the list (on the implementation's own answers)
+		cnt := func(q string) (int, bool) {
+			o := c.Do(Case{Q: q, D: d, Cls: cls, InDomain: true})
+			if o.Class != "ok" || !strings.HasPrefix(o.Logical, "n:") {
+				return 0, false
+			}
+			n, err := strconv.Atoi(o.Logical[2:])
+			return n, err == nil
+		}
+		total, ok0 := cnt("$.xs.Count()")
+		for _, pair := range [][2]string{{"@.IsNull()", "@.IsNotNull()"}, {"@.IsNullOrEmpty()", "@.IsNotNullOrEmpty()"}, {"@.k?.IsNull()", "@.k?.IsNotNull()"}} {
+			a, ok1 := cnt("$.xs[" + pair[0] + "].Count()")
+			b, ok2 := cnt("$.xs[" + pair[1] + "].Count()")
+			if ok0 && ok1 && ok2 && a+b != total {
+				q := "$.xs[" + pair[0] + "] / $.xs[" + pair[1] + "]"
+				c.addViolation(Violation{Kind: "relational", Query: q, QueryHex: hx(q), Data: d, Expected: fmt.Sprintf("%d elements between them", total), Got: fmt.Sprintf("%d + %d", a, b),
+					Why: "a null test and its negation, used as filters, do not split the list between them", Cls: cls, Key: "relational:filter-partition"})
+			}
+		}
+		if l.name == "any-list" {
+			for _, qx := range [][2]string{{"$.xs[@.IsNull()].Count()", "n:2"}, {"$.xs[@.IsNotNull()].id", "[n:1,n:3,n:4]"}, {"$.xs[@.k?.IsNull()].Count()", "n:4"}, {"$.xs[@.k?.IsNotNull()].id", "[n:1]"}, {"$.xs[{$.all}].Count()", "n:5"}} {
+				c.Do(Case{Q: qx[0], D: d, XK: "logical", X: qx[1], Cls: cls, InDomain: true})
+			}
+		}
+	}
 }
